@@ -602,4 +602,185 @@ theorem dictToPaths_pathsToDict_shared_head_regroups :
         pure (dictToPaths [] d)) =
     .ok [(["a", "b"], .int 1), (["a", "d"], .int 3), (["c"], .int 2)] := by rfl
 
+/-! ### the converse for arbitrary prefix-free lists, up to the grouping of common prefixes -/
+
+private theorem rootedL : ∀ (n : Nat) (kvs : KVs) (r : Path), sizeOf kvs ≤ n →
+    ∀ q ∈ dictToPaths.goList r kvs, r <+: q.1 := by
+  intro n
+  induction n with
+  | zero =>
+    intro kvs r h
+    cases kvs with
+    | nil => simp [dictToPaths.goList]
+    | cons kv rest => simp at h
+  | succ n ih =>
+    intro kvs r h q hq
+    cases kvs with
+    | nil => simp [dictToPaths.goList] at hq
+    | cons kv rest =>
+      obtain ⟨k, v⟩ := kv
+      simp only [dictToPaths.goList, List.mem_append] at hq
+      simp at h
+      rcases hq with hq | hq
+      · have hpre : r <+: r ++ [k] := List.prefix_append r [k]
+        cases v with
+        | dict ckvs =>
+          simp only [dictToPaths] at hq
+          simp at h
+          exact hpre.trans (ih ckvs (r ++ [k]) (by omega) q hq)
+        | _ => simp [dictToPaths] at hq; subst hq; exact hpre
+      · exact ih rest r (by omega) q hq
+private theorem not_mem_keys_of_lookup_none (k : String) (kvs : KVs) (h : KV.lookup k kvs = Option.none) :
+    k ∉ KV.keys kvs := by
+  induction kvs with
+  | nil => simp [KV.keys]
+  | cons kv rest ih =>
+    obtain ⟨k', v'⟩ := kv
+    by_cases hk : k' = k
+    · simp [KV.lookup, hk] at h
+    · simp only [KV.lookup, hk, if_false] at h
+      simp only [KV.keys, List.map_cons, List.mem_cons, not_or]
+      exact ⟨fun e => hk e.symm, by simpa [KV.keys] using ih h⟩
+
+private theorem set_goList (r : Path) (k : String) (c : Val) : ∀ (kvs : KVs) (child : Val),
+    KV.lookup k kvs = some child →
+    ∃ pre post, dictToPaths.goList r kvs = pre ++ dictToPaths (r ++ [k]) child ++ post ∧
+      dictToPaths.goList r (KV.set k c kvs) = pre ++ dictToPaths (r ++ [k]) c ++ post := by
+  intro kvs
+  induction kvs with
+  | nil => intro child h; simp [KV.lookup] at h
+  | cons kv rest ih =>
+    intro child h
+    obtain ⟨k', v'⟩ := kv
+    by_cases hk : k' = k
+    · simp [KV.lookup, hk] at h; subst h; subst hk
+      exact ⟨[], dictToPaths.goList r rest, by simp [dictToPaths.goList], by simp [KV.set, dictToPaths.goList]⟩
+    · simp only [KV.lookup, hk, if_false] at h
+      obtain ⟨pre, post, h1, h2⟩ := ih child h
+      refine ⟨dictToPaths (r ++ [k']) v' ++ pre, post, ?_, ?_⟩
+      · simp [dictToPaths.goList, h1, List.append_assoc]
+      · simp [KV.set, hk, dictToPaths.goList, h2, List.append_assoc]
+
+private theorem assocPath_perm (v : Val) (hv : ∀ kvs, v ≠ .dict kvs) : ∀ (p : Path), p ≠ [] →
+    ∀ (kvs : KVs) (r : Path),
+    (∀ q ∈ dictToPaths.goList r kvs, ¬ q.1 <+: r ++ p ∧ ¬ (r ++ p) <+: q.1) →
+    ∃ kvs', assocPath (.dict kvs) p v = .ok (.dict kvs') ∧
+      (dictToPaths.goList r kvs').Perm (dictToPaths.goList r kvs ++ [(r ++ p, v)]) := by
+  intro p
+  induction p with
+  | nil => intro h; exact absurd rfl h
+  | cons k rest ih =>
+    intro _ kvs r H
+    cases hl : KV.lookup k kvs with
+    | none =>
+      have hk := not_mem_keys_of_lookup_none k kvs hl
+      obtain ⟨c, hc, hd⟩ := assocPath_fresh kvs k rest v hv hk
+      refine ⟨kvs ++ [(k, c)], hc, ?_⟩
+      rw [goList_append]
+      simp [dictToPaths.goList, hd, List.append_assoc]
+    | some child =>
+      cases rest with
+      | nil =>
+        obtain ⟨pre, post, h1, h2⟩ := set_goList r k v kvs child hl
+        have hempty : dictToPaths (r ++ [k]) child = [] := by
+          cases hch : dictToPaths (r ++ [k]) child with
+          | nil => rfl
+          | cons q qs =>
+            exfalso
+            have hq : q ∈ dictToPaths.goList r kvs := by rw [h1, hch]; simp
+            have hroot : r ++ [k] <+: q.1 := by
+              cases child with
+              | dict ckvs =>
+                simp only [dictToPaths] at hch
+                exact rootedL _ ckvs (r ++ [k]) (Nat.le_refl _) q (by rw [hch]; simp)
+              | _ => simp [dictToPaths] at hch; rw [← hch.1]; exact List.prefix_refl _
+            exact (H q hq).2 hroot
+        refine ⟨KV.set k v kvs, by simp [assocPath], ?_⟩
+        rw [h2, h1, hempty, dictToPaths_leaf _ v hv]
+        simp only [List.append_nil, List.append_assoc]
+        exact (List.perm_append_comm (l₁ := [(r ++ [k], v)]) (l₂ := post)).append_left pre
+      | cons k2 rest2 =>
+        by_cases hcd : ∃ ckvs, child = .dict ckvs
+        · obtain ⟨ckvs, rfl⟩ := hcd
+          obtain ⟨pre, post, h1, h2⟩ := set_goList r k (.dict ckvs) kvs (.dict ckvs) hl
+          have H' : ∀ q ∈ dictToPaths.goList (r ++ [k]) ckvs,
+              ¬ q.1 <+: (r ++ [k]) ++ (k2 :: rest2) ∧ ¬ ((r ++ [k]) ++ (k2 :: rest2)) <+: q.1 := by
+            intro q hq
+            have : q ∈ dictToPaths.goList r kvs := by rw [h1]; simp [dictToPaths, hq]
+            simpa [List.append_assoc] using H q this
+          obtain ⟨ckvs', hc, hperm⟩ := ih (by simp) ckvs (r ++ [k]) H'
+          obtain ⟨pre2, post2, h12, h22⟩ := set_goList r k (.dict ckvs') kvs (.dict ckvs) hl
+          refine ⟨KV.set k (.dict ckvs') kvs, by simp [assocPath, hl, hc], ?_⟩
+          rw [h22, h12]
+          simp only [dictToPaths, List.append_assoc]
+          have e : r ++ [k] ++ k2 :: rest2 = r ++ k :: k2 :: rest2 := by simp
+          rw [e] at hperm
+          have := (hperm.append_right post2).append_left pre2
+          simp only [List.append_assoc] at this
+          refine this.trans ?_
+          refine List.Perm.append_left pre2 (List.Perm.append_left _ ?_)
+          exact List.perm_append_comm
+        · exfalso
+          have hleaf : dictToPaths (r ++ [k]) child = [(r ++ [k], child)] :=
+            dictToPaths_leaf _ child (fun kvs h => hcd ⟨kvs, h⟩)
+          obtain ⟨pre, post, h1, -⟩ := set_goList r k v kvs child hl
+          have hq : (r ++ [k], child) ∈ dictToPaths.goList r kvs := by rw [h1, hleaf]; simp
+          exact (H _ hq).1 (by simp)
+
+private theorem fold_perm (pl : List (Path × Val)) :
+    ∀ (kvs : KVs), (∀ pv ∈ pl, pv.1 ≠ [] ∧ ∀ kvs, pv.2 ≠ .dict kvs) →
+      pl.Pairwise (fun a b => (¬ a.1 <+: b.1) ∧ ¬ b.1 <+: a.1) →
+      (∀ q ∈ dictToPaths.goList [] kvs, ∀ pv ∈ pl, (¬ q.1 <+: pv.1) ∧ ¬ pv.1 <+: q.1) →
+      ∃ kvs', pl.foldlM (fun d (pv : Path × Val) => assocPath d pv.1 pv.2) (Val.dict kvs) = .ok (.dict kvs') ∧
+        (dictToPaths.goList [] kvs').Perm (dictToPaths.goList [] kvs ++ pl) := by
+  induction pl with
+  | nil => intro kvs _ _ _; exact ⟨kvs, rfl, by simp⟩
+  | cons pv rest ih =>
+    intro kvs hall hpf hk
+    obtain ⟨p, v⟩ := pv
+    have hp := (hall (p, v) (by simp)).1
+    have hv := (hall (p, v) (by simp)).2
+    simp only at hp hv
+    rw [List.pairwise_cons] at hpf
+    obtain ⟨kvs1, h1, hperm1⟩ := assocPath_perm v hv p hp kvs []
+      (fun q hq => by simpa using hk q hq (p, v) (by simp))
+    simp only [List.nil_append] at hperm1
+    have hk1 : ∀ q ∈ dictToPaths.goList [] kvs1, ∀ pv ∈ rest, (¬ q.1 <+: pv.1) ∧ ¬ pv.1 <+: q.1 := by
+      intro q hq pv hpv
+      have := hperm1.mem_iff.mp hq
+      rcases List.mem_append.mp this with h | h
+      · exact hk q h pv (by simp [hpv])
+      · simp at h; subst h; exact hpf.1 pv hpv
+    obtain ⟨kvs', hf, hperm⟩ := ih kvs1 (fun pv h => hall pv (by simp [h])) hpf.2 hk1
+    refine ⟨kvs', by simp [List.foldlM, h1]; exact hf, ?_⟩
+    refine hperm.trans ?_
+    have := hperm1.append_right rest
+    simpa [List.append_assoc] using this
+
+/-- **The converse inverse law** — paths → dictionary → paths, for every prefix-free list: for every
+list of non-empty paths carrying non-dictionary values in which no path is a prefix of another (so
+none occurs twice), `paths_to_dict` succeeds and `dict_to_paths` enumerates exactly the pairs given
+— nothing lost, nothing added, nothing duplicated, every value at its own path — up to the order,
+which groups paths under their common prefixes (`dictToPaths_pathsToDict_shared_head_regroups`).
+No hypothesis on key order, on the depth of the paths or on their number. -/
+theorem dictToPaths_pathsToDict_perm (pl : List (Path × Val))
+    (hall : ∀ pv ∈ pl, pv.1 ≠ [] ∧ ∀ kvs, pv.2 ≠ .dict kvs)
+    (hpf : pl.Pairwise (fun a b => (¬ a.1 <+: b.1) ∧ ¬ b.1 <+: a.1)) :
+    ∃ d, pathsToDict pl = .ok d ∧ (dictToPaths [] d).Perm pl := by
+  obtain ⟨kvs', hf, hg⟩ := fold_perm pl [] hall hpf (by simp [dictToPaths.goList])
+  exact ⟨.dict kvs', hf, by simpa [dictToPaths, dictToPaths.goList] using hg⟩
+
+/-- the hypotheses are met by a list that shares prefixes at two depths and interleaves them -/
+example : ([(["a", "b", "x"], Val.int 1), (["c"], .int 2), (["a", "d"], .int 3), (["a", "b", "y"], .int 4)] :
+    List (Path × Val)).Pairwise (fun a b => (¬ a.1 <+: b.1) ∧ ¬ b.1 <+: a.1) := by decide
+
+/-- … and prefix-freeness is needed: a path that extends an earlier one makes `paths_to_dict` raise
+(`TypeError` in the code: the earlier leaf is indexed), one that is extended by an earlier one
+overwrites the subtree — either way the first pair is lost. -/
+theorem dictToPaths_pathsToDict_prefix_witness :
+    pathsToDict [(["a"], .int 1), (["a", "b"], .int 2)] = .error .typeError ∧
+    (do let d ← pathsToDict [(["a", "b"], .int 1), (["a"], .int 2)]; pure (dictToPaths [] d)) =
+      .ok [(["a"], .int 2)] := by
+  constructor <;> rfl
+
 end VivProps.C17
